@@ -161,6 +161,7 @@ type loadReq struct {
 	want resp
 	sg   bool
 	own  string // vals stream: the body the request's own data prescribe ("" = no such oracle)
+	reg  *resp  // reg stream: the whole response the request's own parameters prescribe
 }
 
 func loadRequests(r *vh.Rand, stream string, n int, limit int) []loadReq {
@@ -188,6 +189,35 @@ func loadRequests(r *vh.Rand, stream string, n int, limit int) []loadReq {
 		x := fmt.Sprintf("%d", 1000+i*7+r.Intn(5))
 		tag := fmt.Sprintf("t%d", i)
 		var w wire
+		if stream == "reg" {
+			// every configuration of the registry routes; about half of the requests park somewhere
+			// (rendezvous: they wait until all the others are parked or have finished and detached)
+			q := regReq{A: vh.Pick(r, regAnswers), Who: vh.Pick(r, []string{"h", "h", "h", "m2", "m1"}), X: x, So: r.Chance(30)}
+			switch v := r.Intn(12); {
+			case v == 0:
+				q.Via = "hot"
+			case v == 1:
+				q.Via = "front"
+			case v == 2:
+				q.Via = "api"
+			}
+			if r.Chance(15) {
+				q.Cl = vh.Pick(r, []string{"clone", "withctx", "hclone"})
+			}
+			if r.Bool() {
+				for _, p := range q.reached() {
+					if r.Chance(35) {
+						q.Park = append(q.Park, p)
+					}
+				}
+			}
+			lq := loadReq{w: regWire(q, -1)}
+			if want, ok := regWant(q); ok {
+				lq.reg = &want
+			}
+			out = append(out, lq)
+			continue
+		}
 		if stream == "depth" {
 			// together beyond the limit (1.3 × … 2 ×), each alone well within it
 			per := (limit*13/10+r.Intn(limit*7/10+1))/n + 1
@@ -238,6 +268,9 @@ func loadScript(stream string) string {
 	if stream == "depth" {
 		return depthScript()
 	}
+	if stream == "reg" {
+		return regScriptSrc
+	}
 	return "<?php\nuse Net\\Http\\Server;\n$server = new Server('127.0.0.1', 0);\n" + h + "\nverif_expose($server);\n"
 }
 
@@ -263,7 +296,7 @@ func loadChild(args []string) int {
 		lc.Limit = 500
 	}
 	reqs := loadRequests(r, lc.Stream, lc.InFlight, lc.Limit)
-	if lc.Stream == "vals" || lc.Stream == "depth" {
+	if lc.Stream == "vals" || lc.Stream == "depth" || lc.Stream == "reg" {
 		// depth: every request descends, all meet at the bottom (the frames of all of them are held
 		// at the same time), then they come back up racing each other
 		srv.gate.bar = newBarrier()
@@ -285,6 +318,15 @@ func loadChild(args []string) int {
 	for i := range reqs {
 		reqs[i].want = srv.serve(reqs[i].w)
 		res.Routes = append(res.Routes, reqs[i].w.URL)
+		if lc.Stream == "reg" {
+			reqs[i].want = canonResp(reqs[i].want)
+			if reqs[i].reg != nil && reqs[i].want != *reqs[i].reg {
+				res.NDiff++
+				res.NOwn++
+				res.Diffs = append(res.Diffs, loadDiff{reqs[i].w.URL, reqs[i].want.String(), reqs[i].reg.String() + " (served alone, after other requests)", regClass(reqs[i].want, *reqs[i].reg)})
+			}
+			continue
+		}
 		if reqs[i].want.Panic != "" && (lc.Stream != "depth" || reqs[i].own != "") {
 			res.Panics = append(res.Panics, "solo "+reqs[i].w.URL+": "+reqs[i].want.Panic)
 			continue
@@ -319,6 +361,9 @@ func loadChild(args []string) int {
 				defer wg.Done()
 				<-start
 				got := srv.serve(q.w)
+				if lc.Stream == "reg" {
+					got = canonResp(got)
+				}
 				if srv.gate.bar != nil {
 					srv.gate.bar.leave()
 				}
@@ -327,7 +372,7 @@ func loadChild(args []string) int {
 				res.Requests++
 				// (depth stream: through HotHandler a refusal reaches the client as a panic; it is
 				// compared with the solo answer like any other response)
-				if got.Panic != "" && lc.Stream != "depth" {
+				if got.Panic != "" && lc.Stream != "depth" && lc.Stream != "reg" {
 					if len(res.Panics) < 5 {
 						res.Panics = append(res.Panics, q.w.URL+": "+got.Panic)
 					}
@@ -341,6 +386,9 @@ func loadChild(args []string) int {
 				if q.sg && got.Code == q.want.Code && got.Header == q.want.Header &&
 					strings.SplitN(got.Body, "#", 2)[0] == strings.SplitN(q.want.Body, "#", 2)[0] {
 					class = "sg"
+				}
+				if lc.Stream == "reg" {
+					class = regClass(got, q.want)
 				}
 				if class == "own" {
 					res.NOwn++
@@ -436,6 +484,12 @@ func runLoad(c *vh.Ctx, lc loadCase) {
 		c.Violation("load:handler-panic", "a handler panicked under parallel load: "+p, lc)
 	}
 	sgSeen := false
+	if lc.Stream == "reg" {
+		for _, d := range res.Diffs {
+			c.Violation("registry:load:"+strings.TrimPrefix(d.Class, "registry:"), fmt.Sprintf("under parallel load (%d requests in flight on the registry routes, the parked ones waiting until the others are parked or have finished, × %d rounds) %s answered %q but %q when served alone", lc.InFlight, lc.Rounds, d.URL, d.Got, d.Want), lc)
+		}
+		return
+	}
 	if lc.Stream == "depth" {
 		classOf := func(url string) string {
 			k := strings.SplitN(strings.TrimPrefix(strings.TrimPrefix(url, "/d/"), "/h/"), "?", 2)[0]
@@ -526,6 +580,7 @@ func loadStreams(c *vh.Ctx, limits []int) {
 		runLoad(c, loadCase{Stream: "vals", Seed: c.Rand.U64() % 1000000, InFlight: n, Rounds: c.N(4, 20)})
 	}
 	depthLoadStreams(c, limits)
+	regLoadStreams(c)
 	for _, n := range []int{8, 32} {
 		runLoad(c, loadCase{Stream: "sg", Seed: c.Rand.U64() % 1000000, InFlight: n, Rounds: c.N(20, 200)})
 	}
